@@ -172,7 +172,20 @@ fn synth_source(rng: &mut Rng) -> Source {
             let _ = ghost_blocks;
             let live = b"live".to_vec();
             place(&mut image, 20, &indep::encode_record(version, &live, b"keep-keep-keep", 10, 0, 20));
-            let j = indep::encode_journal(1, &[(16, 2)], 2);
+            // the journal of a crashed batch lists its extents in allocation order, which is not
+            // sector order once free space is fragmented: several entries, shuffled, each holding a
+            // parsable (uncommitted) record, one of them a newer generation of a committed key
+            let mut extents = vec![(16u64, 2u64)];
+            let overwrite = indep::encode_record(version, &live, b"uncommitted-overwrite", 99, 0, 24);
+            place(&mut image, 24, &overwrite);
+            extents.push((24, 1));
+            if rng.chance(1, 2) {
+                let g2 = b"ghost2".to_vec();
+                place(&mut image, 28, &indep::encode_record(version, &g2, &val(rng, &g2, 5), 11, 0, 28));
+                extents.push((28, 2));
+            }
+            rng.shuffle(&mut extents);
+            let j = indep::encode_journal(rng.range(1, 9), &extents, 2);
             place(&mut image, 1, &j);
         }
         _ => {
